@@ -222,12 +222,7 @@ func (in *Interp) strEq(x, y value) *Term {
 			if p.op.id == q.op.id {
 				continue
 			}
-			pt, ok1 := p.op.arg.(*Term)
-			qt, ok2 := q.op.arg.(*Term)
-			if !ok1 || !ok2 || pt.sort != qt.sort {
-				panic(unsupported{"comparison of rendered non-scalar values"})
-			}
-			c = in.tb.And(c, in.tb.Eq(pt, qt))
+			c = in.tb.And(c, in.deepEq(p.op.arg, q.op.arg))
 		default:
 			panic(unsupported{"comparison of strings with rendered values of different structure"})
 		}
@@ -523,4 +518,98 @@ func copyVal(v value) value {
 		return a
 	}
 	return v
+}
+
+// deepEq builds the condition that two values handed to a rendering stub (fmt verb,
+// template data, csv field) are indistinguishable: same shape, equal scalars and strings.
+func (in *Interp) deepEq(a, b value) *Term {
+	tb := in.tb
+	switch x := a.(type) {
+	case nil:
+		return tb.Bool(b == nil)
+	case *Term:
+		y, ok := b.(*Term)
+		if !ok || y.sort != x.sort {
+			return tb.False
+		}
+		return tb.Eq(x, y)
+	case string, *Rope:
+		switch b.(type) {
+		case string, *Rope:
+			return in.strEqLoose(x, b)
+		}
+		return tb.False
+	case structure:
+		y, ok := b.(structure)
+		if !ok || len(y) != len(x) {
+			return tb.False
+		}
+		c := tb.True
+		for i := range x {
+			c = tb.And(c, in.deepEq(x[i], y[i]))
+		}
+		return c
+	case array:
+		y, ok := b.(array)
+		if !ok || len(y) != len(x) {
+			return tb.False
+		}
+		c := tb.True
+		for i := range x {
+			c = tb.And(c, in.deepEq(x[i], y[i]))
+		}
+		return c
+	case []value:
+		y, ok := b.([]value)
+		if !ok || len(y) != len(x) {
+			return tb.False
+		}
+		c := tb.True
+		for i := range x {
+			c = tb.And(c, in.deepEq(x[i], y[i]))
+		}
+		return c
+	case *value:
+		y, ok := b.(*value)
+		if !ok {
+			return tb.False
+		}
+		if x == nil || y == nil {
+			return tb.Bool(x == nil && y == nil)
+		}
+		if x == y {
+			return tb.True
+		}
+		return in.deepEq(*x, *y)
+	case iface:
+		y, ok := b.(iface)
+		if !ok {
+			return tb.False
+		}
+		if x.t == nil || y.t == nil {
+			return tb.Bool(x.t == nil && y.t == nil)
+		}
+		if !types.Identical(x.t, y.t) {
+			return tb.False
+		}
+		return in.deepEq(x.v, y.v)
+	case *Map:
+		y, ok := b.(*Map)
+		return tb.Bool(ok && x == y)
+	}
+	panic(unsupported{fmt.Sprintf("comparison of rendered values of type %T", a)})
+}
+
+// strEqLoose is strEq, except that strings of different structure are unequal instead of unsupported.
+func (in *Interp) strEqLoose(x, y value) (res *Term) {
+	defer func() {
+		if r := recover(); r != nil {
+			if _, ok := r.(unsupported); ok {
+				res = in.tb.False
+				return
+			}
+			panic(r)
+		}
+	}()
+	return in.strEq(x, y)
 }
